@@ -261,6 +261,11 @@ def r2(chk, repo):
                             d = None
                         if d is not None and d["kind"] not in ("c", "u"):
                             bad.append(f"{short(n, 60)}: astype changes the sample kind to {d['kind']!r}")
+                        elif d is not None:
+                            adv = {k: dtypes.parse_expr(v) for k, v in _table(repo.module(IMG_MD), "dtypes").items()}
+                            if (d["kind"], d["itemsize"]) not in {(a_["kind"], a_["itemsize"]) for a_ in adv.values()}:
+                                bad.append(f"{short(n, 60)}: the samples are converted to {d['text']}, which is none of the advertised dtypes {sorted(a_['text'] for a_ in adv.values())} - "
+                                           f"the loaded data has another dtype (and size) than the variable declares")
                 else:
                     r = repo.resolve_expr(pd, n.func) if isinstance(n.func, (ast.Name, ast.Attribute)) else None
                     fq = r.fq if r is not None and r.kind == "external" else None
